@@ -1,8 +1,221 @@
-import Echse.Model.Daemon
+/-
+  C11 — the per-user task map of the daemon model: `absMap s uid` is the owner of the task the table holds
+  for `uid`.  Requests (`inject` / `eject` / `cmd_ical`) change the map only at the key they name, only for
+  the owner they may act for, and say so in their replies; loop iterations, child exits and checkpoints only
+  retire entries.
+
+  `Inv` is the invariant of reachable states (`reachable_inv`).  `Known s p`: `compl_uid` accepts `p`.
+  `effOwner s owner peer` is the owner `_inject_task1` settles on for a peer and an optional `OWNER` field
+  (`none`: refused); `effOwner_root` / `effOwner_user` spell it out.
+  Helper lemmas: Echse/Lemmas/Daemon*.lean.
+-/
+import Echse.Lemmas.Daemon5
 namespace C11
 open Echse.Daemon
 
-/-- smoke (general statements replace this) -/
-theorem smoke_limit : mayRun { sid := 0, uid := "j", owner := 1, occ := [], dur := 0, maxSimul := 1, nsim := 1 } = false := by decide
+/-- reachable states are well-formed -/
+theorem reachable_inv (m : Nat) (ops : List Op) (hm : Mono 0 ops) : Inv (run { me := m } ops).1 :=
+  Inv_run ops { me := m } (Inv_init m) hm
+
+/-- … and so is the state a new daemon rebuilds from its queue files (`reload`: every task is injected with
+the unknown peer and its recorded owner), given ascending streams -/
+theorem reload_inv (files : List (Nat × List DTask)) (me now : Nat)
+    (hs : ∀ f ∈ files, ∀ t ∈ f.2, t.occ.Pairwise (· ≤ ·)) : Inv (reload files me now) :=
+  Inv_reload files me now hs
+
+/-! ### 1. the map is well-formed -/
+
+/-- `map_wellformed`: at most one in-table task per uid, in every reachable state -/
+theorem map_wellformed (m : Nat) (ops : List Op) (hm : Mono 0 ops) :
+    ∀ a ∈ (run { me := m } ops).1.tasks, ∀ b ∈ (run { me := m } ops).1.tasks,
+      a.inTable = true → b.inTable = true → a.uid = b.uid → a = b :=
+  (reachable_inv m ops hm).uidU
+
+/-- the map is exactly the set of (uid, owner) pairs of the in-table tasks -/
+theorem absMap_spec {s : St} (h : Inv s) (k : String) (o : Nat) :
+    absMap s k = some o ↔ ∃ t ∈ s.tasks, t.inTable = true ∧ t.uid = k ∧ t.owner = o :=
+  absMap_eq_some_iff h
+
+/-- owners in the map are known users -/
+theorem owners_known {s : St} (h : Inv s) {k : String} {o : Nat} (hm : absMap s k = some o) : Known s o := by
+  obtain ⟨t, ht, _, _, ho⟩ := (absMap_eq_some_iff h).mp hm
+  rw [← ho]; exact (h.tinv' ht).owner_ok
+
+/-! ### 2. effect of requests, replies -/
+
+/-- who `_inject_task1` acts for in the root daemon: a known peer acts for itself (an `OWNER` field must be
+absent, unknown or name the peer); an unknown peer (e.g. the reload of the queue files) acts for the known
+owner the `OWNER` field names -/
+theorem effOwner_root {s : St} (hme : s.me = 0) (owner : Option Nat) (peer e : Nat) :
+    effOwner s owner peer = some e ↔
+      e ≠ notAUid ∧ ((complUid s peer = e ∧ (ownerC s owner = notAUid ∨ ownerC s owner = e)) ∨
+        (complUid s peer = notAUid ∧ ownerC s owner = e)) :=
+  effCore_root hme _ _ e
+
+/-- … and in a user daemon (`me ≠ 0`): peer and `OWNER` field known and equal; or one of them known and
+equal to `me`, the other unknown or absent -/
+theorem effOwner_user {s : St} (hme : s.me ≠ 0) (owner : Option Nat) (peer e : Nat) :
+    effOwner s owner peer = some e ↔
+      e ≠ notAUid ∧ ((complUid s peer = e ∧ ownerC s owner = e) ∨
+        (complUid s peer = e ∧ ownerC s owner = notAUid ∧ e = s.me) ∨
+        (complUid s peer = notAUid ∧ ownerC s owner = e ∧ e = s.me)) :=
+  effCore_user hme _ _ e
+
+/-- the owner acted for is a known user -/
+theorem effOwner_is_known {s : St} {owner : Option Nat} {peer e : Nat} (h : effOwner s owner peer = some e) :
+    Known s e := effOwner_known h
+
+/-- success of `inject`: it is a task, the request may act for some owner `e`, and the uid is free or
+already `e`'s -/
+theorem inject_success_iff (s : St) (uid : String) (owner : Option Nat) (ms dur : Nat) (occ : List Nat)
+    (isTask : Bool) (peer : Nat) :
+    (inject s uid owner ms dur occ isTask peer).2 = true ↔
+      isTask = true ∧ ∃ e, effOwner s owner peer = some e ∧ (absMap s uid = none ∨ absMap s uid = some e) :=
+  inject_ok_iff uid owner ms dur occ isTask peer
+
+/-- `add_new`: exactly the key `uid` is added, owned by `e` -/
+theorem add_new {s : St} (h : Inv s) (uid : String) (owner : Option Nat) (ms dur : Nat) (occ : List Nat)
+    (peer e : Nat) (hs : occ.Pairwise (· ≤ ·)) (he : effOwner s owner peer = some e)
+    (hnew : absMap s uid = none) :
+    (inject s uid owner ms dur occ true peer).2 = true ∧
+    ∀ k, absMap (inject s uid owner ms dur occ true peer).1 k = if k = uid then some e else absMap s k :=
+  inject_add_new h uid owner ms dur occ peer e hs he hnew
+
+/-- `replace_own`: the map is confirmed, the entry carries the new limit and stream -/
+theorem replace_own {s : St} (h : Inv s) (uid : String) (owner : Option Nat) (ms dur : Nat)
+    (occ : List Nat) (peer e : Nat) (hs : occ.Pairwise (· ≤ ·)) (he : effOwner s owner peer = some e)
+    (hown : absMap s uid = some e) :
+    (inject s uid owner ms dur occ true peer).2 = true ∧
+    (∀ k, absMap (inject s uid owner ms dur occ true peer).1 k = absMap s k) ∧
+    ∃ t', (inject s uid owner ms dur occ true peer).1.find uid = some t' ∧ t'.maxSimul = ms ∧
+      t'.occ = occ.dropWhile (· < s.now) :=
+  inject_replace_own h uid owner ms dur occ peer e hs he hown
+
+/-- a refused `inject` changes nothing at all -/
+theorem inject_refused (s : St) (uid : String) (owner : Option Nat) (ms dur : Nat) (occ : List Nat)
+    (isTask : Bool) (peer : Nat) (hf : (inject s uid owner ms dur occ isTask peer).2 = false) :
+    (inject s uid owner ms dur occ isTask peer).1 = s :=
+  inject_fail uid owner ms dur occ isTask peer hf
+
+/-- success of `eject`: the uid is in the map and the peer's -/
+theorem eject_success_iff (s : St) (uid : String) (peer : Nat) :
+    (eject s uid peer).2 = true ↔ absMap s uid = some peer := eject_ok_iff uid peer
+
+/-- `cancel_own`: exactly the key `uid` is removed -/
+theorem cancel_own {s : St} (h : Inv s) (uid : String) (peer : Nat) (hown : absMap s uid = some peer) :
+    (eject s uid peer).2 = true ∧
+    ∀ k, absMap (eject s uid peer).1 k = if k = uid then none else absMap s k :=
+  eject_cancel_own h uid peer hown
+
+/-- a refused `eject` changes nothing at all -/
+theorem eject_refused (s : St) (uid : String) (peer : Nat) (hf : (eject s uid peer).2 = false) :
+    (eject s uid peer).1 = s := eject_fail uid peer hf
+
+/-- `reply_iff`, shape: `cmd_ical` returns one reply per instruction, in order, each naming its uid -/
+theorem replies_shape (s : St) (peer : Nat) (ins : List Instr) :
+    (cmdIcal s peer ins).2.length = ins.length ∧
+    ∀ n (hn : n < ins.length), (cmdIcal s peer ins).2[n]? =
+      some (instrUid ins[n], (applyInstr (applyAll s peer (ins.take n)).1 peer ins[n]).2) := by
+  rw [cmdIcal_replies]
+  exact ⟨applyAll_length peer ins s, fun n hn => applyAll_nth peer ins s n hn⟩
+
+/-- `reply_iff`, content: the reply to an instruction (applied to the state `s'` its predecessors left) is
+`true` iff the `inject` / `eject` it stands for succeeds there; otherwise the state is untouched -/
+theorem reply_iff (s' : St) (peer : Nat) (i : Instr) :
+    ((applyInstr s' peer i).2 = true ↔
+      match i with
+      | .sched uid owner _ _ _ isTask =>
+        isTask = true ∧ ∃ e, effOwner s' owner peer = some e ∧ (absMap s' uid = none ∨ absMap s' uid = some e)
+      | .cancel uid => absMap s' uid = some peer) ∧
+    ((applyInstr s' peer i).2 = false → (applyInstr s' peer i).1 = s') :=
+  ⟨applyInstr_ok_iff s' peer i, applyInstr_fail s' peer i⟩
+
+/-! ### 3. isolation -/
+
+/-- a known peer acts for nobody but itself, whatever `OWNER` field an instruction carries (instructions
+naming another user fail) -/
+theorem known_peer_acts_for_itself {s : St} {p : Nat} (hk : Known s p) (owner : Option Nat) {e : Nat}
+    (he : effOwner s owner p = some e) : e = p := effOwner_known_peer hk he
+
+/-- `isolation`, records: a request of the known user `p` neither adds, removes nor changes (`occ`,
+`maxSimul`, …) any record owned by somebody else -/
+theorem isolation_records {s : St} (h : Inv s) {p : Nat} (hk : Known s p) (ins : List Instr)
+    (hs : ∀ i ∈ ins, instrSorted i) (t : DTask) (hne : t.owner ≠ p) :
+    t ∈ (cmdIcal s p ins).1.tasks ↔ t ∈ s.tasks := cmdIcal_others h hk ins hs t hne
+
+/-- `isolation`, map: … nor the map at any key owned by somebody else, nor does it create such a key -/
+theorem isolation {s : St} (h : Inv s) {p : Nat} (hk : Known s p) (ins : List Instr)
+    (hs : ∀ i ∈ ins, instrSorted i) (k : String) (o : Nat) (hne : o ≠ p) :
+    absMap (cmdIcal s p ins).1 k = some o ↔ absMap s k = some o :=
+  cmdIcal_absMap_others h hk ins hs k o hne
+
+/-- `isolation`, any peer (root daemon reloading its queue, unknown peers): one instruction touches only
+records of the owner it acts for — the effective owner of a `sched`, the peer itself for a `cancel` -/
+theorem isolation_instr {s : St} (h : Inv s) (peer : Nat) (i : Instr) (t : DTask)
+    (hne : ∀ e, actOwner s peer i = some e → t.owner ≠ e) :
+    t ∈ (applyInstr s peer i).1.tasks ↔ t ∈ s.tasks := applyInstr_others h peer i hne
+
+/-- an unknown peer cannot cancel anything -/
+theorem unknown_peer_cannot_cancel {s : St} (h : Inv s) {p : Nat} (hk : ¬ Known s p) (uid : String) :
+    (eject s uid p).2 = false := eject_unknown_fails h hk uid
+
+/-- `isolation`, running: every spawn runs as the owner the map records for its uid -/
+theorem spawn_runs_as_owner {s : St} {now : Nat} {ko : Option Nat} (h : Inv s) {sp : Spawn}
+    (hsp : sp ∈ (iter s now ko).2) : absMap s sp.uid = some sp.asUid := spawn_asUid h hsp
+
+/-- the HTTP listing: a known peer other than root is refused (403) or shown its own tasks only, whatever
+uid the URL names -/
+theorem http_isolation {s : St} (h : Inv s) {p : Nat} (hk : Known s p) (hp : p ≠ 0) (urlUid : Option Nat)
+    (tuids : List String) :
+    httpSched s p urlUid tuids = (403, []) ∨
+    ((httpSched s p urlUid tuids).1 = 200 ∧ ∀ uid ∈ (httpSched s p urlUid tuids).2, absMap s uid = some p) := by
+  rcases httpSched_own hk hp urlUid tuids with h1 | ⟨h1, h2⟩
+  · exact Or.inl h1
+  · refine Or.inr ⟨h1, fun uid hu => ?_⟩
+    obtain ⟨t, ht, hi, ho, hu'⟩ := h2 uid hu
+    exact (absMap_eq_some_iff h).mpr ⟨t, ht, hi, hu', ho⟩
+
+/-! ### 4. iterations, exits and checkpoints preserve ownership -/
+
+/-- `ticks_preserve_ownership`: an operation that is not a request never changes the owner of an entry and
+never adds one — it only retires entries -/
+theorem ticks_preserve_ownership {s : St} (h : Inv s) (op : Op) (hop : OpOk s op) (hnr : op.isReq = false)
+    {k : String} {o : Nat} (hm : absMap (step s op).1 k = some o) : absMap s k = some o :=
+  absMap_step_nonreq h op hop hnr hm
+
+/-! ### concrete histories -/
+
+/-- a foreign cancel: reply `false`, map unchanged; the owner's cancel succeeds -/
+example :
+    (step (run { me := 0 } [.req 1001 [.sched "j" none 63 0 [10] true]]).1 (.req 1002 [.cancel "j"])).2.2
+      = [("j", false)] ∧
+    absMap (step (run { me := 0 } [.req 1001 [.sched "j" none 63 0 [10] true]]).1 (.req 1002 [.cancel "j"])).1 "j"
+      = some 1001 ∧
+    (step (run { me := 0 } [.req 1001 [.sched "j" none 63 0 [10] true]]).1 (.req 1001 [.cancel "j"])).2.2
+      = [("j", true)] ∧
+    absMap (step (run { me := 0 } [.req 1001 [.sched "j" none 63 0 [10] true]]).1 (.req 1001 [.cancel "j"])).1 "j"
+      = none := by decide
+
+/-- an `OWNER` field naming another user, a foreign replacement, an unknown peer: all refused -/
+example :
+    (run { me := 0 } [.req 1001 [.sched "j" none 63 0 [10] true],
+                      .req 1002 [.sched "k" (some 1001) 63 0 [10] true, .sched "j" none 1 0 [20] true],
+                      .req 4711 [.sched "l" none 63 0 [10] true, .cancel "j"]]).2.2
+      = [("j", true), ("k", false), ("j", false), ("l", false), ("j", false)] := by decide
+
+/-- a user daemon (`me = 1001`) accepts a task of another known user when the `OWNER` field names that
+user (`effOwner_user`, first alternative), and would run it as that user; without the field it refuses -/
+example :
+    (run { me := 1001 } [.req 1002 [.sched "j" (some 1002) 63 0 [10] true, .sched "k" none 63 0 [10] true],
+                         .tick 15]).2.2 = [("j", true), ("k", false)] ∧
+    ((run { me := 1001 } [.req 1002 [.sched "j" (some 1002) 63 0 [10] true], .tick 15]).2.1.map
+      fun p => (p.2.uid, p.2.asUid)) = [("j", 1002)] := by decide
+
+/-- the HTTP gate is a bit test: user 1001 asking for `/u/1003/sched` (1001 &&& 1003 = 1001) is not refused,
+but is shown its own tasks only -/
+example :
+    httpSched (run { me := 0 } [.req 1001 [.sched "a" none 63 0 [10] true],
+                                .req 1003 [.sched "b" none 63 0 [10] true]]).1 1001 (some 1003) []
+      = (200, ["a"]) := by decide
 
 end C11
